@@ -335,8 +335,10 @@ def main(tier):
     # (Props/Inlines.v: every value the inline phase constructs is an inline the containment table accepts);
     # both parser models are tied to the compiled parser here (full scopes in the thorough tier)
     from checks import layerc
-    layerc.blocks(c, tier, 0.2 if quick else 1.0)
-    layerc.inlines(c, tier, 0.15 if quick else 1.0)
+    # (Props/Blocks.v and Props/Inlines.v are compiled as dependencies of Props/Parse.v, whose Parse_valid rests on them;
+    # their own Print Assumptions pass runs in C01 / BLOCKS_TIE / INLINES_TIE and, here, in the thorough tier)
+    layerc.blocks(c, tier, 0.2 if quick else 1.0, proofs=not quick)
+    layerc.inlines(c, tier, 0.15 if quick else 1.0, proofs=not quick)
     # the FINAL tree: Parse_valid_partial / Parse_shape (Props/Parse.v) about Model/Parse.v parse_document_model, the whole
     # parser as one function, tied end to end to parse_document here
     layerc.whole(c, tier, 0.2 if quick else 0.5)
